@@ -183,6 +183,14 @@ func VH_C11_program() {
 			p.expect("POST", G+"/o", [][]int{g1ids}, ids1) // looked up last-wins: POST stays with the optional route
 			p.expect("POST", G, [][]int{g1ids}, ids1)
 		}
+		if on(10) { // a route whose own path is empty: it is the group's path itself
+			hs, ids := p.list(1)
+			r.Get("", hs...)
+			p.expect("GET", G, [][]int{g1ids}, ids)
+			if autoHead {
+				p.expect("HEAD", G, [][]int{g1ids}, ids)
+			}
+		}
 	}, g1...)
 	vx.Assert(len(r.groups) == 0, "C11: leaving a group restores the enclosing scope")
 	if on(7) { // 7
@@ -217,7 +225,7 @@ func VH_C11_program() {
 	}
 
 	// ---- every (method, path) of the template, after the whole program ran
-	paths := []string{"/p1", G + "/p2", G + H + "/p3", G + H + "/p4", G + H + "/p5", G + "/c", "/p7", "/tc", "/p2", H + "/p3", G + "/p3", "/c", G + "/tc", G + "/o", G, "/o"}
+	paths := []string{"/p1", G + "/p2", G + H + "/p3", G + H + "/p4", G + H + "/p5", G + "/c", "/p7", "/tc", "/p2", H + "/p3", G + "/p3", "/c", G + "/tc", G + "/o", G, "/o", G + "/"}
 	allOK := true
 	for _, path := range paths {
 		for _, m := range vC11Methods {
